@@ -185,6 +185,7 @@ func run(c *fw.Ctx) {
 	}
 	if c.Mode == "prov" {
 		runProvisioned(c)
+		runHistory(c)
 		return
 	}
 	maxN := c.Pick(6, 8)
@@ -488,6 +489,51 @@ func runConcurrent(c *fw.Ctx) {
 		c.Case(fw.Hash("conc", n, workers, per, h), maxOverlap > 1, func() any {
 			return map[string]any{"upstreams": n, "goroutines": workers, "selections_each": per, "max_overlap": maxOverlap, "verdict": fmt.Sprint(res)}
 		})
+	}
+}
+
+// runHistory: the deterministic policies (first, ip_hash) are functions of the client and the current pool state. One
+// selector instance is used through a history - all upstreams up, the chosen one goes down, it comes back - and has
+// to agree at every step with a fresh instance asked about the same state.
+func runHistory(c *fw.Ctx) {
+	for n := 2; n <= 6; n++ {
+		for ci, cl := range clients {
+			if !c.Mine(n*100 + ci) {
+				continue
+			}
+			st := State{Codes: strings.Repeat("o", n)}
+			pool, _ := st.build()
+			cx := connFor(cl)
+			for _, name := range []string{"ip_hash", "first"} {
+				mk := func() l4proxy.Selector {
+					if name == "first" {
+						return &l4proxy.FirstSelection{}
+					}
+					return &l4proxy.IPHashSelection{}
+				}
+				shared := mk()
+				step := func(what string) int {
+					got := indexOf(pool, shared.Select(pool, cx))
+					want := indexOf(pool, mk().Select(pool, cx))
+					if got != want {
+						c.Violation(fmt.Sprintf("C10 %s result depends on the selector's history", name),
+							fmt.Sprintf("%d upstreams, client %s, %s: a selector that has been used before returns upstream %d, a fresh one returns %d for the same pool state", n, cl, what, got, want),
+							map[string]any{"policy": name, "n": n, "client": cl, "step": what})
+					}
+					return got
+				}
+				r0 := step("all up")
+				if r0 < 0 {
+					continue
+				}
+				l4proxy.VerifSetPeerState(pool[r0], 0, l4proxy.VerifPeerState{Unhealthy: 1})
+				step("the chosen upstream is down")
+				step("the chosen upstream is down (again)")
+				l4proxy.VerifSetPeerState(pool[r0], 0, l4proxy.VerifPeerState{})
+				step("the chosen upstream is back")
+				c.Obs("history_sequences", 1)
+			}
+		}
 	}
 }
 
